@@ -2452,8 +2452,9 @@ class Parameters:
         cls = self_.cls
         type.__setattr__(cls, param_name, param_obj)
         ParameterizedMetaclass._initialize_parameter(cls, param_name, param_obj)
-        # delete cached params()
-        cls._param__private.params.clear()
+        # delete cached params() of the class and its subclasses
+        for kls in descendents(cls):
+            kls._param__private.params.clear()
 
     # PARAM3_DEPRECATION
     @_deprecated(extra_msg="Use instead `.param.add_parameter`", warning_cat=_ParamFutureWarning)
@@ -4453,6 +4454,8 @@ class ParameterizedMetaclass(type):
                 parameter = copy.copy(parameter)
                 parameter.owner = mcs
                 type.__setattr__(mcs,attribute_name,parameter)
+                for kls in descendents(mcs):
+                    kls._param__private.params.clear()
             mcs.__dict__[attribute_name].__set__(None,value)
 
         else:
